@@ -384,6 +384,17 @@ def check_family(ck, fam, ctor, spec, args, orders_jobs):
     if problems:
         ck.violation(f"C15/{fam}/" + problems[0].split()[0] + "-" + problems[0].split()[1], f"{fam}{args}: " + "; ".join(problems), {"case": case, "problems": problems, "observed_generators": gens[:6], "expected_generators": s["gens"][:6]})
         return
+    # the Lean specification (CvModel/Families.lean) through the driver
+    ints_ = [int(a) for a in args if not isinstance(a, bool)]
+    flags_ = [1 if a else 0 for a in args if isinstance(a, bool)]
+    m = ck.driver().ask(f"family {fam} ; {' '.join(map(str, ints_))} ; {' '.join(map(str, flags_))}")
+    want = f"ok ; {d.name} ; {' | '.join(d.generator_names)} ; {' '.join(map(str, d.central_state))} ; {' | '.join(' '.join(map(str, g)) for g in gens)}"
+    if m == "none":
+        ck.correspondence_break("Lean family specification rejects parameters the library accepts", {"case": case})
+    elif " ".join(m.split()) != " ".join(want.split()):
+        ck.correspondence_break("Lean family specification and library differ", {"case": case, "model": m[:300], "impl": want[:300]})
+    else:
+        ck.count("lean-spec-agrees")
     if s.get("order") is not None and size <= 8 and len(gens) <= 400:
         orders_jobs[fam + "|" + ",".join(map(str, args))] = (gens, s["order"])
 
